@@ -24,13 +24,14 @@ type c42RangeSpec struct{ off, length int64 }
 // staged by its own git process).
 const c42MaxParts = 24
 
-func c42PickKind(rt *rapid.T, label string, quickLocalPct int) string {
-	// LocalBlobstore sleeps 10 ms per Put: its share is capped.
+// c42PickKind draws the backend. LocalBlobstore sleeps 10 ms per Put and GitBlobstore runs
+// 10-25 git processes per manifest update, so their shares are capped.
+func c42PickKind(rt *rapid.T, label string, localPct, gitPct int) string {
 	n := rapid.IntRange(0, 99).Draw(rt, label)
 	switch {
-	case n < quickLocalPct:
+	case n < localPct:
 		return c42Local
-	case n < quickLocalPct+(100-quickLocalPct)*45/100:
+	case n < localPct+gitPct:
 		return c42Git
 	default:
 		return c42InMem
@@ -248,7 +249,7 @@ func c42Reader(rt *rapid.T, ctx context.Context, st *c42Store, w blobstore.Blobs
 
 func c42RangesCase(rt *rapid.T, rec *vh.Recorder) {
 	ctx := context.Background()
-	kind := c42PickKind(rt, "backend", 12)
+	kind := c42PickKind(rt, "backend", 12, 15)
 	var g c42GitOpts
 	if kind == c42Git {
 		g = c42DrawGitOpts(rt)
@@ -352,7 +353,7 @@ func c42Dedup(in []string) []string {
 
 func c42ConcatCase(rt *rapid.T, rec *vh.Recorder) {
 	ctx := context.Background()
-	kind := c42PickKind(rt, "backend", 10)
+	kind := c42PickKind(rt, "backend", 10, 12)
 	var g c42GitOpts
 	if kind == c42Git {
 		g = c42DrawGitOpts(rt)
